@@ -914,6 +914,8 @@ func Main(types []TypeInfo) {
 			d.FamDispatch(*nrand, *G)
 		case "plainhist":
 			d.FamPlainHist(*nrand)
+		case "mapentry":
+			d.FamMapEntry(*nrand)
 		case "ext":
 			d.FamExt(*scripts, *maxScripts)
 		case "extval":
@@ -944,4 +946,100 @@ func longestList(m AM) int {
 		}
 	}
 	return n
+}
+
+// MEv is one run of the generated map-entry decoder on one entry payload of the bounded domain of GenMapEntry.tla.
+type MEv struct {
+	C       string   `json:"c"`
+	Key     string   `json:"key"`
+	Kinds   []string `json:"kinds"`
+	Payload []int    `json:"payload"`
+	Tail    []int    `json:"tail"`
+	St      string   `json:"st"`
+	N       int      `json:"n"` // entries in the map afterwards
+	K       []int    `json:"k"`
+	V       []int    `json:"v"`
+	U       []int    `json:"u"` // unknown bytes of the message afterwards (the tail, when the cursor landed where it should)
+	Note    string   `json:"note"`
+}
+
+// FamMapEntry (C06 / C08; spec GenMapEntry.tla): every entry payload over the model's alphabet up to maxLen bytes, alone and followed by one
+// more field of the enclosing message, through the generated Unmarshal of one map field per (key kind, value kind) pair of the model.
+func (d *Driver) FamMapEntry(maxLen int) {
+	alphabet := []byte{0, 1, 2, 8, 10, 16, 18, 128}
+	tails := [][]byte{nil, {120, 1}}
+	pairs := [][2]string{{"int32", "int32"}, {"string", "string"}, {"string", "int32"}, {"bool", "string"}}
+	done := map[string]bool{}
+	for _, ti := range d.Types {
+		t := d.full(ti)
+		for fi, fd := range d.S.must(t) {
+			if fd.C != "map" || fd.N >= 2048 {
+				continue
+			}
+			var pair *[2]string
+			for i := range pairs {
+				if pairs[i][0] == fd.Mk && pairs[i][1] == fd.Mv {
+					pair = &pairs[i]
+				}
+			}
+			// one map field per pair, flavour and option set - and no field 15 in the type (the tail is an unknown field)
+			id := fmt.Sprintf("%s/%s/%s", ti.Set, ti.Flavour, fd.Mk+","+fd.Mv)
+			hasReq := false
+			for _, g := range d.S.must(t) {
+				hasReq = hasReq || g.C == "req"
+			}
+			if _, idx := d.S.Field(t, 15); pair == nil || done[id] || idx >= 0 || hasReq {
+				continue
+			}
+			done[id] = true
+			d.W.NextGroup()
+			var rec func(p []byte)
+			rec = func(p []byte) {
+				for _, tail := range tails {
+					b := protowire.AppendTag(nil, protowire.Number(fd.N), protowire.BytesType)
+					b = protowire.AppendBytes(b, p)
+					b = append(b, tail...)
+					e := &MEv{C: "mapentry", Key: ti.Key, Kinds: pair[:], Payload: tr.Bytes(p), Tail: tr.Bytes(tail), K: []int{}, V: []int{}, U: []int{}}
+					dst := ti.New()
+					var err error
+					func() {
+						defer func() {
+							if r := recover(); r != nil {
+								e.St, e.Note = "panic", fmt.Sprint(r)
+							}
+						}()
+						err = dst.(unmarshaler).Unmarshal(append([]byte{}, b...))
+					}()
+					if e.St == "" {
+						e.St = errStatus(err)
+					}
+					if e.St == "ok" {
+						am := d.Project(ti, dst)
+						kv := am.F[fi].KV
+						e.N = len(kv)
+						if len(kv) > 0 {
+							e.K, e.V = kv[len(kv)-1].K.S, kv[len(kv)-1].V.S
+						}
+						e.U = am.U
+					}
+					if e.K == nil {
+						e.K = []int{}
+					}
+					if e.V == nil {
+						e.V = []int{}
+					}
+					if e.U == nil {
+						e.U = []int{}
+					}
+					d.W.EmitAny(e)
+				}
+				if len(p) < maxLen {
+					for _, a := range alphabet {
+						rec(append(append([]byte{}, p...), a))
+					}
+				}
+			}
+			rec(nil)
+		}
+	}
 }
